@@ -187,6 +187,31 @@ Fixpoint v_get (v : val) (p : path) : option val :=
   | pe :: rest => match v_get1 v pe with Some e => v_get e rest | None => None end
   end.
 
+(* the read of `(x[p] = d) f= e` (eval_lvalue_as_obj, WithDefault arm): follow all but the last index; there must be a
+   dictionary WITHOUT a default there and the last index must be a key: the value at the key, or d when it is missing *)
+Fixpoint split_last {A : Type} (l : list A) : option (list A * A) :=
+  match l with
+  | [] => None
+  | a :: tl => match split_last tl with
+               | None => Some ([], a)
+               | Some (pre, z) => Some (a :: pre, z)
+               end
+  end.
+
+Definition v_get_wd (v : val) (p : path) (d : val) : option val :=
+  match split_last p with
+  | None => Some v
+  | Some (pre, last) =>
+    match v_get v pre with
+    | Some (VSeq KDict items None) =>
+      match key_of_pelem last with
+      | Some k => match find_key k items with Some _ => v_get v p | None => Some d end
+      | None => None
+      end
+    | _ => None
+    end
+  end.
+
 (* ------------------------------------------------------------------ set_index *)
 Definition set_field (f : nat) (a : val) (fields : list val) : list val :=
   map snd (set_nth f a (unlabelled fields)).
@@ -604,7 +629,8 @@ Inductive sstmt :=
 | SOp (x : nat) (p : path) (f : bop) (e : expr)                (* x[p] f= e *)
 | SMod (dst : option (nat * path)) (x : nat) (m : lop)         (* [y[q] =] pop|remove|consume x[..]   (m is LPop/LRemove/LConsume) *)
 | SSwap (x : nat) (p : path) (y : nat) (q : path)              (* swap x[p], y[q] *)
-| SOpMod (x : nat) (p : path) (f : bop) (wrap : bool) (y : nat) (m : lop).
+| SOpMod (x : nat) (p : path) (f : bop) (wrap : bool) (y : nat) (m : lop)
+| SOpDef (x : nat) (p : path) (d : val) (f : bop) (e : expr).  (* (x[p] = d) f= e : d is used when the last key is missing *)
     (* x[p] f= M   or   x[p] f= [M]   where M is pop|remove|consume y[..]: a right-hand side that mutates (possibly
        the target itself: `q ++= [pop q]`).  The old value of x[p] is read before M runs. *)
 
@@ -680,6 +706,19 @@ Definition exec_s (st : state) (s : sstmt) : state * bool :=
             | Some v1 => let (v', ok) := v_opassign_old p f old w v1 in (set_var st1 x v', ok)
             end
           end
+        end
+      end
+    end
+  | SOpDef x p d f e =>
+    match nth_error st x with
+    | None => (st, false)
+    | Some v =>
+      match v_get_wd v p d with
+      | None => (st, false)
+      | Some old =>
+        match eval st e with
+        | None => (st, false)
+        | Some w => let (v', ok) := v_opassign_old p f old w v in (set_var st x v', ok)
         end
       end
     end
